@@ -138,7 +138,7 @@ class Playback(BaseEngine):
     name = 'playback'
 
     def tiers(self, prop):
-        return {'quick': 100_000, 'thorough': 10_000_000}
+        return {'quick': 100_000, 'thorough': 5_000_000}
 
     # ------------------------------------------------------------ generation
     def gen(self, prop, seed, idx, tier):
